@@ -101,6 +101,12 @@ func runC08(c *fw.Case) {
 			c.HashAdd("fold")
 		}
 	}
+	if _, isBytes := c08Cmp.(skiplist.BytesComparator); isBytes && r.Intn(2) == 0 {
+		// same order as the byte order, but the results are differences, not -1/0/+1 (writer, readers, stack and merger get it)
+		c08Cmp = memcmpCmp{}
+		c.Obs("stacks_under_a_difference_valued_comparator", 1)
+		c.HashAdd("memcmp")
+	}
 	kc := func(a, b []byte) int { return c08Cmp.Compare(a, b) }
 	// normKey maps a key to the representative under which the model files it (identity unless the comparator folds case)
 	normKey := func(k []byte) []byte {
@@ -194,7 +200,9 @@ func runC08(c *fw.Case) {
 	// file, so it reports zero records) as its oldest member
 	var legacy sstables.SSTableReaderI
 	if rd := os.Getenv("VERIF_REPO_DIR"); rd != "" && !fold && c08Loader != "disk" {
-		if _, isBytes := c08Cmp.(skiplist.BytesComparator); isBytes && r.Intn(6) == 0 {
+		_, isBytes := c08Cmp.(skiplist.BytesComparator)
+		_, isMemcmp := c08Cmp.(memcmpCmp)
+		if (isBytes || isMemcmp) && r.Intn(6) == 0 {
 			dst := filepath.Join(c.Dir, "t-legacy")
 			if copyDir(filepath.Join(rd, "sstables", "test_files", "v0_compat", "SimpleWriteHappyPathSSTable"), dst) == nil {
 				if lr, err := c08Open(dst); err == nil {
